@@ -237,6 +237,7 @@ def gen_history(rng, v, kind):
             else:
                 phased = False
         runs.append({'lazy': lazy, 'cache': cache, 'phased': phased, 'sel': cfg['sel'], 'ign': cfg['ign'],
+                     'verbose': rng.random() < 0.25, 'bytes_path': rng.random() < 0.15,
                      'ops': gen_ops(rng, v, rng.randint(6, 22))})
     return runs
 
@@ -257,6 +258,10 @@ def make_read(contigs, c, start, seq):
 
 def execute_run(AlleleResolver, vcf_path, run, contigs=None):
     kw = {'lazyLoad': run['lazy'], 'use_cache': run['cache'], 'phased': run['phased']}
+    if run.get('verbose'):
+        kw['verbose'] = True             # only adds progress messages (stdout is discarded)
+    if run.get('bytes_path'):
+        vcf_path = vcf_path.encode('ascii')   # the constructor also accepts the path as bytes (clean_vcf_name)
     if run['sel'] is not None:
         kw['select_samples'] = list(run['sel'])
     if run['ign'] is not None:
@@ -275,7 +280,10 @@ def execute_run(AlleleResolver, vcf_path, run, contigs=None):
             rec = dict(o)
             try:
                 if o['op'] == 'read':
-                    rec['ans'] = sorted(ar.getAllele([make_read(contigs, o['c'], o['p'], o['seq'])]))
+                    rd = make_read(contigs, o['c'], o['p'], o['seq'])
+                    un = make_read(contigs, o['c'], o['p'], o['seq'])
+                    un.is_unmapped = True        # getAllele skips missing mates and unmapped reads
+                    rec['ans'] = sorted(ar.getAllele([None, un, rd] if o['p'] % 2 else [rd]))
                 elif o['op'] == 'get':
                     a = ar.getAllelesAt(o['c'], o['p'], o['b'])
                     rec['ans'] = sorted(a) if a is not None else []
